@@ -11,8 +11,8 @@ import (
 
 func init() {
 	core.Register(&core.Check{
-		ID: "C36",
-		Rule: "cases: every descriptor of every linked file and of PRNG-generated valid schemas built both by the compact builder and by protodesc (incl. schemas whose sibling fields share a JSON name and enums with aliases): Get(i).Index()==i for every list, ByName/ByNumber/ByJSONName/ByTextName vs a first-match linear scan for every declared key plus near-miss keys, FullName vs parent scope + Name, Parent/ParentFile chains, Has() of reserved/extension/enum ranges at every boundary +-1 vs linear membership, ReservedNames.Has, RequiredNumbers vs required fields, oneof<->field and map key/value links; distinct = distinct descriptors visited; non-trivial = descriptor with at least one child",
+		ID:     "C36",
+		Rule:   "cases: every descriptor of every linked file and of PRNG-generated valid schemas built both by the compact builder and by protodesc (incl. schemas whose sibling fields share a JSON name and enums with aliases): Get(i).Index()==i for every list, ByName/ByNumber/ByJSONName/ByTextName vs a first-match linear scan for every declared key plus near-miss keys, FullName vs parent scope + Name, Parent/ParentFile chains, Has() of reserved/extension/enum ranges at every boundary +-1 vs linear membership, ReservedNames.Has, RequiredNumbers vs required fields, oneof<->field and map key/value links; distinct = distinct descriptors visited; non-trivial = descriptor with at least one child",
 		Assume: []string{"linear scans over List.Get(i) as the reference for keyed lookups"},
 		Batches: func(tier string) []core.Batch {
 			bs := []core.Batch{{Cfg: "base", Name: "linked", Kind: "linked"}}
